@@ -208,6 +208,25 @@ def run(ctx):
                 ctx.ob('C13.6', g, 'parsed-path-resolved:%s.%s' % (rv.get('variant'), fld), via, 'PatchOp::%s.%s %s' % (rv.get('variant'), fld, 'comes out of parse_rel_path' if via else
                        'does NOT pass parse_rel_path: an absolute or `..` path in the patch text is handed to the workspace as a parsed (trusted) path'), line=st.get('ln'))
     ctx.floor('C13.6', 'path fields of PatchOp constructions in the parser', n6, 4)
+    # ---------------------------------------------------------------- C13.3 (create_checkpoint)
+    # "a refused request has no side effect anywhere (including inside the checkpoint store)": the only refusals of
+    # create_checkpoint come from to_relative; none of them may be reachable from a store mutation of the same call.
+    ccf = P.fn('rip_workspace::Workspace::create_checkpoint')
+    ctx.touch(ccf)
+    res_cc = ccf.calls(r'^rip_workspace::Workspace::to_relative$')
+    eff_cc = [s_ for s_ in ccf.sites() if site_effects(s_) & {'FsWrite'}]
+    ctx.floor('C13.3', 'resolver calls in create_checkpoint', len(res_cc), 1)
+    ctx.floor('C13.3', 'store mutations in create_checkpoint', len(eff_cc), 3)
+    late = []
+    for e_ in eff_cc:
+        after = ccf.reach_from_after(e_.bb)
+        for r_ in res_cc:
+            if r_.bb in after:
+                late.append((e_, r_))
+    ctx.ob('C13.3', ccf, 'no-refusal-after-store-effect', not late,
+           ('every to_relative call (%d) is finished before the first of %d store mutations: a refused path leaves the checkpoint store untouched' % (len(res_cc), len(eff_cc))) if not late else
+           ('%s at line %s can run BEFORE to_relative (line %s) refuses a later path: the files already copied stay in an orphan checkpoint directory' % (late[0][0].name().rsplit('::', 2)[-1] if callable(getattr(late[0][0], 'name', None)) else 'a store mutation', late[0][0].line, late[0][1].line)),
+           line=(late[0][0].line if late else (res_cc[0].line if res_cc else None)))
     # ---------------------------------------------------------------- C13.5
     ctx.rule('C13.5', '`..` is only ever refused, never normalised away: every function of the workspace that distinguishes Component::ParentDir (a switch on a path component with an arm for it) is one of the predicates whose true result C13.1 proved to lead to a refusal. A helper that pops / skips / rewrites `..` ("lexical cleaning", de-duplication of spellings) launders a path before a resolver sees it: `../a.txt` arrives as `a.txt`.')
     npd = 0
